@@ -96,6 +96,8 @@ class C19(World):
         )
         if os.environ.get("C19_DEGEN"):  # development knob: bias towards zero-span / zero-duty states
             swarm.update(p_zero_duty=0.3, equal_t=0.3, w_stream=3)
+        if self.tier == "thorough" and sw.random() < 0.25:
+            swarm["length"] = sw.choice([50, 100])
         if swarm["w_stream"] == 0 and swarm["w_coll"] == 0:
             swarm["w_stream"] = swarm["w_coll"] = 1
         nice = swarm["nice"]
